@@ -167,4 +167,16 @@ def startupDiscards : List String := ["zygo.AllBuiltinFunctions"]
 struct field by address. Neither can fabricate a function value. -/
 def knownUnsafe : List String := ["zygo.UnsafeStringToByteSlice", "zygo.unexportHelper$1"]
 
+/-- Bool-valued functions that may decide a refusal gate although a constant-name lookup is
+reachable from them (a script can bind names, so what a name resolves to is under the script's
+control). None today. -/
+def allowedGatePredicates : List String := []
+
+/-- Where the sandbox is enforced by a run-time test of the interpreter's flag rather than by
+leaving a function out of a table: the `include` special form (its generator function must
+test the flag FIELD while it is reachable in a sandbox) and the `sys` / `import` builders
+(StandardSetup may register them only under `!flag`). -/
+def flagGatedForms : List String := ["include"]
+def flagGatedBindings : List String := ["sys", "import"]
+
 end ZygoVerif.Spec.Prims
